@@ -95,7 +95,35 @@ impl Write for Shared {
 pub const CONTENTS: &[&str] = &[
     "ord", "nan", "pinf", "ninf", "nzero", "huge", "sub", "h65504", "gt1", "lt0", "mix", "bits", "nanalpha", "onepx",
     "zero", "max",
+    // block-encoder boundary content (branch wE, notes/C15.md "Float -> integer sites"): appended, so the index-based
+    // picks above (`take(14)`, `below(14)`) are unchanged
+    "flat", "close2", "edge",
 ];
+
+/// a value on or next to a quantisation boundary of the block encoders: `k/31`, `k/63` (R5G6B5 floor/ceil and
+/// `optimal_channel`), `k/255`, `k/254` (BC4 endpoints), `k/15`, `k/127` (BC7 channels) moved by up to 3 ulp, an
+/// arbitrary pattern of [0, 1], or 1.0 / +0.0 / -0.0
+fn boundary_value(rng: &mut Rng) -> f32 {
+    let near = |v: f32, d: i64| f32::from_bits((v.to_bits() as i64 + d).clamp(0, 0x3F80_0000) as u32);
+    let d = rng.below(7) as i64 - 3;
+    match rng.below(10) {
+        0 => near(rng.below(32) as f32 / 31.0, d),
+        1 => near(rng.below(64) as f32 / 63.0, d),
+        2 | 3 => near(rng.below(256) as f32 / 255.0, d),
+        4 => near(rng.below(255) as f32 / 254.0, d),
+        5 => near(rng.below(16) as f32 / 15.0, d),
+        6 => near(rng.below(128) as f32 / 127.0, d),
+        7 => f32::from_bits(rng.below(0x3F80_0001) as u32),
+        8 => 1.0,
+        _ => {
+            if rng.chance(1, 2) {
+                -0.0
+            } else {
+                0.0
+            }
+        }
+    }
+}
 
 fn special_value(rng: &mut Rng) -> f32 {
     match rng.below(14) {
@@ -140,6 +168,12 @@ fn fill(content: &str, precision: Precision, channels: usize, geom: (u32, u32, u
             let per_row = w as usize * channels;
             let n = if len == 0 { 0 } else { per_row * h as usize };
             let special_at = if n > 0 { rng.below(n as u64) as usize } else { 0 };
+            // per-image values of the classes `flat` / `close2` (own stream: the other classes keep theirs)
+            let mut rng2 = Rng::new(seed ^ 0x4543_4247_5349_5445);
+            let flat: [f32; 4] = std::array::from_fn(|_| boundary_value(&mut rng2));
+            let delta: [f32; 4] = std::array::from_fn(|_| {
+                *rng2.pick(&[1.01 / 65536.0, 1.0 / 32768.0, 1.0 / 16384.0, 1.0 / 1024.0, 1.0 / 511.0, 0.9 / 255.0, 1.0 / 255.0])
+            });
             for i in 0..n {
                 let ch = i % channels.max(1);
                 let v: f32 = match content {
@@ -191,6 +225,27 @@ fn fill(content: &str, precision: Precision, channels: usize, geom: (u32, u32, u
                     }
                     "zero" => 0.0,
                     "max" => 1.0,
+                    // one colour for the whole image: the single-colour paths of BC1 (`optimal_channel`), BC4
+                    // (`new_closest`) and BC7
+                    "flat" => flat[ch % 4],
+                    // two values per channel that are closer than one code: the `min == max` second stage of the
+                    // BC4 endpoint quantisation, `floor != ceil` of R5G6B5 on a near-constant block
+                    "close2" => {
+                        if rng.chance(1, 2) {
+                            flat[ch % 4]
+                        } else {
+                            flat[ch % 4] + delta[ch % 4]
+                        }
+                    }
+                    // block extrema exactly 1.0 / -0.0 / +0.0 mixed with boundary values and NaN
+                    "edge" => match rng.below(8) {
+                        0 => 1.0,
+                        1 => -0.0,
+                        2 => 0.0,
+                        3 => f32::NAN,
+                        4 => f32::from_bits(1),
+                        _ => boundary_value(&mut rng),
+                    },
                     _ => ordinary(&mut rng),
                 };
                 let (row, col) = (i / per_row, i % per_row);
@@ -371,6 +426,7 @@ pub fn run(line: &str) -> Option<(String, Vec<String>)> {
         Some("S") => run_s(&t),
         Some("U") => run_u(&t),
         Some("W") => run_w(&t),
+        Some("T") => run_t(&t),
         _ => None,
     }
 }
@@ -605,6 +661,75 @@ fn run_w(t: &[&str]) -> Option<(String, Vec<String>)> {
         px[i] = f32::from_bits(t[2 + i].parse::<u32>().ok()?);
     }
     encode_px(format, px)
+}
+
+/// formats whose flat-block path the model carries end to end (`EncBcSites.bc4Flat`, `bc1Flat`)
+pub const T_FORMATS: &[&str] = &["BC4_UNORM", "BC4_SNORM", "BC1_UNORM"];
+
+/// `T <format> <r> <g> <b>`: a 4x4 RGBA f32 image of ONE colour given by bit patterns (alpha 1.0) into BC4_UNORM /
+/// BC4_SNORM (the block is the red channel) / BC1_UNORM at quality Normal without dithering. Result: the 8 bytes of
+/// the BC4 block (`blk …`) resp. the 4 endpoint bytes of the BC1 block (`ends …`). The model predicts them when the
+/// encoder takes its modelled path (`new_closest` early return; `floor == ceil` of R5G6B5) and answers `search`
+/// otherwise (then nothing is compared, see `equal` in tools/propcfg/C15.py). Ties the glam clamp (NaN, -0.0, ±inf),
+/// `(min + max) * 0.5`, `(255.0 * v + 0.5) as u8`, `(254.0 * v + 0.5) as u8` + `s8::from_norm`, `n8::f32`, `s8::uf32`,
+/// `R5G6B5Color::floor/ceil` to the code, on bit patterns, in both profiles.
+fn run_t(t: &[&str]) -> Option<(String, Vec<String>)> {
+    if t.len() != 5 || !T_FORMATS.contains(&t[1]) {
+        return None;
+    }
+    let format = format_by_name(t[1])?;
+    let mut px = [1.0f32; 4];
+    for i in 0..3 {
+        px[i] = f32::from_bits(t[2 + i].parse::<u32>().ok()?);
+    }
+    let mut data = vec![];
+    for _ in 0..16 {
+        for v in px {
+            data.extend_from_slice(&v.to_ne_bytes());
+        }
+    }
+    let mut o = EncodeOptions::default();
+    o.parallel = false;
+    o.quality = CompressionQuality::Normal;
+    let c = Call {
+        path_encoder: false,
+        format,
+        w: 4,
+        h: 4,
+        color: ColorFormat::RGBA_F32,
+        pitch_extra: 0,
+        data: data.clone(),
+        options: o.clone(),
+        fault: None,
+    };
+    let mut oracle = vec![];
+    match call(&c) {
+        CallResult::Panic(m) => {
+            oracle.push(format!("panic: {m}"));
+            return Some(("panic".into(), oracle));
+        }
+        CallResult::Hang => {
+            oracle.push("hang: the call did not return within the deadline".to_string());
+            return Some(("hang".into(), oracle));
+        }
+        CallResult::NotRun => return Some(("not-run-after-hangs".into(), oracle)),
+        CallResult::BadView => return None,
+        CallResult::Done { kind, .. } => {
+            if kind != "ok" {
+                oracle.push(format!("flat 4x4 block: result '{kind}'"));
+                return Some((kind, oracle));
+            }
+        }
+    }
+    // the call above returned normally, so this one does too
+    let view = ImageView::new(&data, Size::new(4, 4), ColorFormat::RGBA_F32)?;
+    let mut out = Vec::new();
+    if encode(&mut out, view, format, None, &o).is_err() || out.len() != 8 {
+        return Some(("err".into(), oracle));
+    }
+    let (tag, n) = if t[1] == "BC1_UNORM" { ("ends", 4) } else { ("blk", 8) };
+    let bytes: Vec<String> = out[..n].iter().map(|b| b.to_string()).collect();
+    Some((format!("{tag} {}", bytes.join(" ")), oracle))
 }
 
 fn encode_px(format: Format, px: [f32; 4]) -> Option<(String, Vec<String>)> {
@@ -949,6 +1074,86 @@ fn gen_w(out: &mut Vec<String>, seed: u64, thorough: bool) {
     }
 }
 
+/// (h) every block format x {flat, close2, edge} x every quality x every f32 colour, several content seeds: the
+/// single-colour paths (`optimal_channel`, `new_closest`), the `min == max` stage of the BC4 endpoint
+/// quantisation, block extrema of exactly 1.0 / -0.0, NaN mixed with boundary values
+fn gen_h(out: &mut Vec<String>, seed: u64, thorough: bool, encodable: &[(&'static str, Format)]) {
+    let mut g = G { rng: Rng::new(seed ^ 0x4843_4153_4553_4243), out: vec![] };
+    let reps = if thorough { 40 } else { 5 };
+    for (name, _) in encodable.iter().filter(|(n, _)| is_bc(n)) {
+        for content in ["flat", "close2", "edge"] {
+            for quality in QUALITIES {
+                for color in 8..12usize {
+                    let n = if *quality == "unr" { (reps + 3) / 4 } else { reps };
+                    for _ in 0..n {
+                        let (w, h) = *g.rng.pick(&[(4u32, 4u32), (4, 4), (8, 4), (5, 3)]);
+                        let dither = *g.rng.pick(DITHERS);
+                        let metric = *g.rng.pick(METRICS);
+                        g.push("d", name, w, h, color, 0, content, quality, dither, metric, 0, None);
+                    }
+                }
+            }
+        }
+    }
+    out.append(&mut g.out);
+}
+
+/// (i) T cases: flat 4x4 blocks through the modelled single-colour paths (own PRNG stream)
+fn gen_t(out: &mut Vec<String>, seed: u64, thorough: bool) {
+    let mut rng = Rng::new(seed ^ 0x5446_4C41_5442_4C4B);
+    const SPECIAL: &[u32] = &[
+        0, 0x8000_0000, 1, 0x8000_0001, 0x007F_FFFF, 0x0080_0000, 0x3F80_0000, 0x3F7F_FFFF, 0x3F80_0001, 0x3F00_0000,
+        0x3EFF_FFFF, 0x3F00_0001, 0x7F80_0000, 0xFF80_0000, 0x7FC0_0000, 0xFFC0_0000, 0x7F80_0001, 0xFFFF_FFFF,
+        0x7F7F_FFFF, 0xFF7F_FFFF, 0xBF80_0000, 0x4000_0000, 0x3780_0000, 0x3380_0000, 0x3300_0000, 0x3B80_8081,
+    ];
+    let near = |b: u32, d: i64| (b as i64 + d).clamp(0, 0xFFFF_FFFF) as u32;
+    for (fmt, kmax) in [("BC4_UNORM", 255u32), ("BC4_SNORM", 254)] {
+        for s in SPECIAL {
+            out.push(format!("T {fmt} {s} 0 0"));
+        }
+        for k in 0..=kmax {
+            let v = k as f32 / kmax as f32;
+            for d in -2i64..=2 {
+                out.push(format!("T {fmt} {} 0 0", near(v.to_bits(), d)));
+            }
+            // both sides of `(c0_f - value).abs() < BC4_EPSILON`
+            for e in [1.0f32 / 65536.0, -1.0 / 65536.0] {
+                for d in -1i64..=1 {
+                    out.push(format!("T {fmt} {} 0 0", near((v + e).to_bits(), d)));
+                }
+            }
+        }
+        let n = if thorough { 30_000 } else { 2_500 };
+        for _ in 0..n {
+            let b = match rng.below(8) {
+                0 => rng.next() as u32,
+                1 => near(((rng.below(kmax as u64 + 1) as f32 + 0.5) / kmax as f32).to_bits(), rng.below(5) as i64 - 2),
+                _ => rng.below(0x3F80_0001) as u32,
+            };
+            out.push(format!("T {fmt} {b} 0 0"));
+        }
+    }
+    for s in SPECIAL {
+        out.push(format!("T BC1_UNORM {s} {s} {s}"));
+        out.push(format!("T BC1_UNORM {s} 0 1065353216"));
+        out.push(format!("T BC1_UNORM 1065353216 {s} 0"));
+    }
+    let n = if thorough { 40_000 } else { 4_000 };
+    for _ in 0..n {
+        let mut ch = [0u32; 3];
+        for (i, c) in ch.iter_mut().enumerate() {
+            let m = if i == 1 { 63u64 } else { 31 };
+            *c = match rng.below(10) {
+                0 => *rng.pick(SPECIAL),
+                1 => rng.below(0x3F80_0001) as u32,
+                // on a code (floor == ceil just above it, not just below)
+                _ => near((rng.below(m + 1) as f32 / m as f32).to_bits(), rng.below(6) as i64 - 2),
+            };
+        }
+        out.push(format!("T BC1_UNORM {} {} {}", ch[0], ch[1], ch[2]));
+    }
+}
+
 pub fn gen(seed: u64, thorough: bool) -> Vec<String> {
     let mut g = G { rng: Rng::new(seed), out: vec![] };
     let formats = all_formats();
@@ -1139,6 +1344,11 @@ pub fn gen(seed: u64, thorough: bool) -> Vec<String> {
     gen_u(&mut g.out, seed, thorough);
     // (f4) W cases: bit patterns through `s16::from_uf32` (binary64) of the three SNORM16 formats
     gen_w(&mut g.out, seed, thorough);
+
+    // (h) boundary content of the block encoders' float -> integer sites (own PRNG stream)
+    gen_h(&mut g.out, seed, thorough, &encodable);
+    // (i) T cases: flat blocks through the modelled single-colour paths of bc4.rs / bc1.rs
+    gen_t(&mut g.out, seed, thorough);
 
     // (g) PRNG over the whole quantifier
     let n = if thorough { 1_200_000 } else { 40_000 };
